@@ -48,6 +48,8 @@ class C09(Prop):
             for warm in (True, False):
                 for grow in (False, True):
                     yield dict(kind='sequence', engine=eng, warm=warm, grow=grow, seed=int(rng.randint(1 << 30)))
+        # the sequence on which LocalInference.mirror_descent_auto recursed without bound before fix 994e1cb (see known_findings.json), in every run
+        yield dict(kind='sequence', engine='local', warm=True, grow=False, seed=313048240)
         # (2) noise-free sweep, diverse first: sizes interleaved
         sizes = list(range(1, 65))
         order = [sizes[i] for i in np.argsort([(n * 37) % 64 for n in sizes])]
@@ -235,10 +237,16 @@ class C09(Prop):
                 s = float(rng.choice([0.5, 1.0, 4.0]))
                 y = x + noise * s * rng.randn(n)
                 ms.append((np.eye(n), y, s, p)); Qs.append(np.eye(n)); ys.append(y); ss.append(s)
-            if eng == 'local':
-                model = est.estimate(ms, total=T)
-            else:
-                model = est.estimate(ms, total=T, engine=eng)
+            try:
+                if eng == 'local':
+                    model = est.estimate(ms, total=T)
+                else:
+                    model = est.estimate(ms, total=T, engine=eng)
+            except Exception as e:           # raised inside the repository on an in-family call sequence: the call returned no model at all
+                out.append(('repeated-call-returns-a-model', False, dict(step=step, supplied=T, engine=eng, warm_start=case['warm'],
+                                                                         raised='%s: %s' % (type(e).__name__, str(e)[:200]))))
+                return out
+            out.append(('repeated-call-returns-a-model', True, dict(step=step)))
             exp = T if T is not None else self._oracle_total(Qs, ys, ss)[0]
             det = dict(step=step, model_total=float(model.total), expected=exp, supplied=T, engine=eng, warm_start=case['warm'], grown=bool(case['grow'] and step >= 2))
             if T is not None:
